@@ -5,6 +5,7 @@ export PATH=/opt/veriftools/go1.26.8/bin:$PATH GOTOOLCHAIN=local GOFLAGS=-mod=mo
 S=${S:-/tmp/proto}
 mkdir -p $S/verifsim
 rsync -a --delete --exclude=.git --exclude=_examples --exclude=docs --exclude=integration --exclude=codegen/testserver --exclude='plugin/*/testdata' --exclude=bin /repo/ $S/gqlgen/
+/verif/bin/instrument -root $S/gqlgen -mutex >/dev/null
 rsync -a --exclude=go.mod.tmpl /verif/harness/ $S/verifsim/
 cp /verif/harness/go.mod.tmpl $S/verifsim/go.mod; cp /repo/go.sum $S/verifsim/go.sum
 cd $S/verifsim
